@@ -457,6 +457,14 @@ pub fn check(tier: &str) -> i32 {
         }
         canon.sort();
         let _ = rows;
+        // ORDER BY the first of several group fields with a LIMIT: groups that tie on that field may be
+        // cut either way, so layouts are compared on the reported first-field values only (each reported
+        // group's metrics are still judged against the fold above)
+        if a.order.is_some() && a.by.len() > 1 {
+            let mut firsts: Vec<String> = got_keys.iter().map(|k| k[0].clone()).collect();
+            firsts.sort();
+            canon = firsts;
+        }
         Judged {
             answer: Some(canon.join("|")),
             verdict: if errs.is_empty() { Ok(()) } else { Err(errs.join("; ")) },
